@@ -1332,7 +1332,7 @@ func mvtWalk(ls mvt.Layers) {
 func mvtMeasure(n int, f func() string) (string, uint64) {
 	var class string
 	alloc := mvtAllocOf(func() { class = guard(f) })
-	for try := 0; try < 3 && alloc > uint64(8*n+2048) && alloc < 4<<20; try++ {
+	for try := 0; try < 3 && alloc > uint64(8*n+2048); try++ { // no upper bound: noise of any size is re-measured (DESIGN 9.3)
 		a2 := mvtAllocOf(func() { class = guard(f) })
 		if a2 < alloc {
 			alloc = a2
